@@ -133,7 +133,18 @@ func RunFunction(P *Program, name string, cfg *Config, so SolveOpts) *FuncReport
 					}
 					stageA = Solve(dir, fname+"__qf", qf, ta, false)
 				}
-				if stageA.Status == "unsat" {
+				if j.o.Family == "V" {
+					// covers: only the quantifier-free variant (an unsat core without the quantified
+					// assumptions is still an unsat core; anything else counts as reachable)
+					if dropped {
+						r = stageA
+					} else {
+						r = Solve(dir, fname, j.o.Problem(pre, false), 3000, false)
+					}
+					if r.Status != "unsat" {
+						r.Status = "sat"
+					}
+				} else if stageA.Status == "unsat" {
 					r = stageA
 					r.Backend += "/qf"
 				} else {
